@@ -14,7 +14,7 @@ TRUSTED = ['SQLite INNER JOIN with equality constraints = nested loops over matc
 RULE = ('2-4 structures derived from a common parent of 4-14 atoms by independent deletions, coordinate changes and record '
         'permutations (keys unique within each structure), x match-key subsets (default 4 keys, 3-key and 2-key subsets, with and '
         'without uniqueness), x attribute lists (*, x,y,z, name,resSeq, single column); also get_all, __call__ and intersect(). '
-        'Non-trivial: at least one deletion or permutation, i.e. the intersection is a proper, re-ordered subset.')
+        'Also homo-dimer families with chains A and a, explicit table names out of alphabetical order, intersect() of an intersected database and of a selection db(**sel). Non-trivial: at least one deletion or permutation, i.e. the intersection is a proper, re-ordered subset.')
 
 STD = ['serial', 'name', 'altLoc', 'resName', 'chainID', 'resSeq', 'iCode', 'x', 'y', 'z', 'occ', 'temp', 'element', 'model']
 MATCHES = [['name', 'resname', 'resSeq', 'chainID'], ['name', 'resSeq', 'chainID'], ['name', 'resName', 'resSeq'],
@@ -23,6 +23,10 @@ COLSETS = ['*', 'x,y,z', 'name,resSeq', 'chainID', 'serial,name,x']
 
 def unique_parent(rng, n):
     atoms = gen_pdb.gen_atoms(rng, n, chains=rng.choice([('A',), ('A', 'B')]))
+    if n <= 8 and rng.random() < 0.3:
+        # homo-dimer whose chains are labelled A and a: the same residues and atom names in both chains
+        half = [a for a in atoms if a['chainID'] == atoms[0]['chainID']]
+        atoms = [dict(a, chainID='A') for a in half] + [dict(a, chainID='a', x=round(a['x'] + 7.5, 3), serial=a['serial'] + 500) for a in half]
     seen, out = set(), []
     for a in atoms:
         k = (a['name'], a['resName'], a['resSeq'], a['chainID'])
@@ -70,10 +74,12 @@ def run_case(ctx, pdb2sql, case, rep=None):
             inputs.append(o); objs.append(o)
         else:
             inputs.append([gen_pdb.atom_line(a) for a in s_atoms])
-    db = pdb2sql.many2sql(inputs)
+    db = pdb2sql.many2sql(inputs, tablenames=(list(case['tablenames']) if case.get('tablenames') else None))
     for o in objs:
         o._close()
-    names = db._get_table_names()
+    # structure i lives in table i of the names given (or of the default names ATOM, ATOM1, ...), in input order
+    names = list(case['tablenames']) if case.get('tablenames') else ['ATOM'] + ['ATOM%d' % i for i in range(1, len(inputs))]
+    out_names = list(db._get_table_names())
     tables = [canon_rows(db.get('*', tablename=n)) for n in names]
     out = {}
     try:
@@ -86,6 +92,7 @@ def run_case(ctx, pdb2sql, case, rep=None):
             ['spec.many.intersection', match_idx(case['match']), col_idx(case['cols']), tables],
             ['spec.many.unique', match_idx(case['match']), tables]]
     m, s, uniq = ctx.model.batch(reqs)
+    out['names_ok'] = (out_names == names)
     out['model'] = ['OK', tuples(m)]
     out['spec'] = ['OK', tuples(s)]
     out['unique'] = uniq == 1
@@ -112,7 +119,25 @@ def run_case(ctx, pdb2sql, case, rep=None):
             nn = ndb._get_table_names()
             nt = [canon_rows(ndb.get('*', tablename=n)) for n in nn]
             out['intersect_tables'] = (nn == names, tuples(nt))
+            # the intersected database is a many2sql like any other: intersecting it again changes nothing
+            if nt and nt[0] and out['unique']:      # (with non-unique keys the rows multiply at every join)
+                ndb2 = ndb.intersect(match=case['match'])
+                nn2 = ndb2._get_table_names()
+                nt2 = [canon_rows(ndb2.get('*', tablename=n)) for n in nn2]
+                out['reintersect_ok'] = (nn2 == names and len(nt2) == len(nt) and tuples(nt2) == tuples(nt))
+                ndb2._close()
             ndb._close()
+        # the per-structure selection db(**sel) is again a many2sql: its intersect() holds its own get_intersection rows
+        if case['cols'] == '*' and sel and out.get('get_all_ok') and all(own) and out['unique']:
+            sub = db(**sel)
+            si = sub.get_intersection('*', match=case['match'])
+            if si and si[0]:
+                sn = sub.intersect(match=case['match'])
+                snn = sn._get_table_names()
+                snt = [canon_rows(sn.get('*', tablename=n)) for n in snn]
+                out['sub_intersect_ok'] = (snn == names and len(snt) == len(si) and tuples(snt) == text_round(tuples([canon_rows(d) for d in si])))
+                sn._close()
+            sub._close()
     except Exception as e:
         out['intersect_tables'] = ('ERR', exc_class(e))
     db._close()
@@ -147,6 +172,10 @@ def explore(ctx, tier, rng, search=False):
         cols = COLSETS[k % len(COLSETS)]
         sel = rng.choice([{}, {'chainID': 'A'}, {'name': ['CA', 'N', 'C', 'O']}, {'resSeq': [1, 10, 11]}])
         case = {'structures': structs, 'match': match, 'cols': cols, 'sel': sel}
+        if rng.random() < 0.25:
+            case['tablenames'] = rng.choice([['ref', 'decoy_2', 'Decoy1', 'm4'], ['t2', 't1', 't0', 'T3'], ['b', 'a', 'd', 'c'], ['ATOM', 'x9', 'ATOM1', 'A0']])[:ns]
+            feats.add('explicit-table-names')
+        if any(a['chainID'] == 'a' for a in parent): feats.add('chains-A-and-a')
         if rng.random() < 0.35:
             case['as_objects'] = [rng.random() < 0.6 for _ in structs]; feats.add('structures-given-as-modified-objects')
         feats.add(f'structures-{ns}'); feats.add('match-' + '+'.join(match)); feats.add('cols-' + cols)
@@ -175,6 +204,12 @@ def judge(case, out):
         return 'impl_vs_model', dict(impl=out['impl'], model=out['model'])
     if not out['get_all_ok']:
         return 'impl_vs_spec', dict(why="get_all / per-table get differ from each structure's own atoms", got=out.get('get_all'))
+    if not out.get('names_ok', True):
+        return 'impl_vs_spec', dict(why='the tables are not listed in the order of the structures given')
+    if out.get('reintersect_ok') is False and out['unique']:
+        return 'impl_vs_spec', dict(why='intersect() of an intersected database does not hold one table per structure with the same aligned rows')
+    if out.get('sub_intersect_ok') is False and out['unique']:
+        return 'impl_vs_spec', dict(why='intersect() of a selection db(**sel) differs from its own get_intersection rows / one table per structure')
     if 'intersect_tables' in out and out['unique']:
         it = out['intersect_tables']
         if it[0] == 'ERR':
